@@ -79,6 +79,8 @@ func Load(harnessDir string, pkgPaths []string) (*Program, error) {
 		return nil, fmt.Errorf("package load errors (the tree does not compile with the harness):\n%s", strings.Join(errs, "\n"))
 	}
 	prog, spkgs := ssautil.AllPackages(pkgs, ssa.InstantiateGenerics)
+	// build every function body up front: lazy building from several workers races
+	prog.Build()
 	return &Program{Prog: prog, Pkgs: pkgs, SSA: spkgs}, nil
 }
 
